@@ -352,14 +352,17 @@ def stage_aggregate(ctx, st, G):
     for (fam, u, a, b), o in zip(cases, outs):
         ctx.count("aggregate:" + fam, sx.to_sexp([a, b]), nontrivial=(not is_panic(o)) and a != b and irgen.tsize(a) > 1)
     ctx.sample({"op": "Agg", "a": sx.to_sexp(cases[-1][2])[:300], "b": sx.to_sexp(cases[-1][3])[:300], "real": sx.to_sexp(outs[-1])[:300]})
-    # (b) the property on the implementation alone: both inputs are instances of the real output
-    idx = [i for i, o in enumerate(outs) if not is_panic(o)]
-    good = coq_bools(ctx, "agg_prop", "chk_inst2", "(tm * tm) * tm", [Pair(Pair(cases[i][2], cases[i][3]), outs[i][1]) for i in idx])
-    for j, ok in enumerate(good):
-        if not ok and st.viol < 3:
-            fam, u, a, b = cases[idx[j]]
+    # one Coq pass: (a) model == implementation, (b) the property on the implementation alone: both inputs are
+    # instances (by the verified matcher) of the REAL output
+    codes = coq_verdicts(ctx, "agg", "chk_agg_code", "(N * (tm * tm)) * res (binders * tm)",
+                         [Pair(Pair(u, Pair(a, b)), agg_expected(u, o)) for (_, u, a, b), o in zip(cases, outs)])
+    for i, code in enumerate(codes):
+        if code != 2:
+            continue
+        if st.viol < 3:
+            fam, u, a, b = cases[i]
 
-            def fails(cands):
+            def fails(cands, u=u):
                 o2 = hrun([("Agg", u, c[0], c[1]) for c in cands])
                 ii = [k for k, o in enumerate(o2) if not is_panic(o)]
                 g2 = coq_bools(ctx, "agg_shr", "chk_inst2", "(tm * tm) * tm", [Pair(Pair(cands[k][0], cands[k][1]), o2[k][1]) for k in ii])
@@ -372,13 +375,11 @@ def stage_aggregate(ctx, st, G):
             st.violation({"kind": "property", "law": "aggregate_generalizes", "op": "Agg", "universe": u, "a": sx.to_sexp(a2), "b": sx.to_sexp(b2),
                           "real_output": sx.to_sexp(o2), "original": sx.to_sexp([a, b])[:2000],
                           "what": "an argument of AntiUnifier::aggregate_generic_args is not an instance of its result"})
-        elif not ok:
+        else:
             st.viol += 1
-    # (a) model == implementation
-    bad = coq_bad(ctx, "agg", "chk_agg", "(rs_eqb aggout_eqb)", "N * (tm * tm)", "res (binders * tm)",
-                  [(Pair(u, Pair(a, b)), agg_expected(u, o)) for (_, u, a, b), o in zip(cases, outs)])
+    bad = [i for i, c in enumerate(codes) if c == 1]
     st.mism["aggregate"] = [("Agg",) + cases[i][1:] for i in bad]
-    ctx.cov["families"].setdefault("model==impl:aggregate", {"cases": len(cases), "nontrivial": len(idx)})["mismatches"] = len(bad)
+    ctx.cov["families"].setdefault("model==impl:aggregate", {"cases": len(cases), "nontrivial": sum(1 for o in outs if not is_panic(o))})["mismatches"] = len(bad)
 
 
 def gen_answers(ctx, G, n_pos):
@@ -424,52 +425,41 @@ def stage_merge(ctx, st, G):
         ctx.count("merge:sequence", sx.to_sexp(vals), nontrivial=not is_panic(o) and len(vals) > 1)
         ctx.count("merge:pair", sx.to_sexp(vals[:2]), nontrivial=not is_panic(o))
     ctx.sample({"op": "MergeSeq", "answers": sx.to_sexp(seqs[0][1])[:400], "real": sx.to_sexp(outs[0])[:400]})
-    # (b) every answer merged so far is an instance of the real guidance at that point
-    q, qi = [], []
-    for k, ((root, vals), o) in enumerate(zip(seqs, outs)):
-        if is_panic(o):
-            continue
-        for j, g in enumerate(o):
-            q.append(Pair(vals[:j + 2], g[1]))
-            qi.append((k, j))
-    good = coq_bools(ctx, "merge_prop", "chk_inst_all", "list (list tm) * list tm", q)
-    for (k, j), ok in zip(qi, good):
-        if ok:
+    # one Coq pass: model == implementation and (b) every answer merged so far is an instance of the real guidance at that point
+    codes = coq_verdicts(ctx, "mergeseq", "chk_mergeseq_code", "(binders * list csubst) * res (list csubst)",
+                         [Pair(Pair(c[1], c[2]), okres(o)) for c, o in zip(cases, outs)])
+    for k, code in enumerate(codes):
+        if code != 2:
             continue
         if st.viol < 3:
             root, vals = seqs[k]
-            vals = vals[:j + 2]
 
-            def fails_seq(cand_seqs):
+            def fails_seq(cand_seqs, root=root):
                 o2 = hrun([("MergeSeq", root, [cs(v) for v in c]) for c in cand_seqs])
-                ii = [m for m, o in enumerate(o2) if not is_panic(o)]
-                g2 = coq_bools(ctx, "merge_shr", "chk_inst_all", "list (list tm) * list tm", [Pair(cand_seqs[m], o2[m][-1][1]) for m in ii])
-                res = [False] * len(cand_seqs)
-                for m, g in zip(ii, g2):
-                    res[m] = not g
-                return res
-            # drop answers, then drop positions, then shrink terms
+                cc = coq_verdicts(ctx, "merge_shr", "chk_mergeseq_code", "(binders * list csubst) * res (list csubst)",
+                                  [Pair(Pair(root, [cs(v) for v in c]), okres(o)) for c, o in zip(cand_seqs, o2)])
+                return [x == 2 for x in cc]
+            # drop answers, then shrink terms
             progress = True
             while progress and len(vals) > 2:
                 progress = False
                 cands = [vals[:m] + vals[m + 1:] for m in range(len(vals))]
-                f = fails_seq(cands)
-                for c, ff in zip(cands, f):
+                for c, ff in zip(cands, fails_seq(cands)):
                     if ff:
                         vals, progress = c, True
                         break
             npos = len(vals[0])
             flat = [t for v in vals for t in v]
-            shr = shrink_terms(flat, lambda cl: fails_seq([[c[m * npos:(m + 1) * npos] for m in range(len(vals))] for c in cl]), rounds=8)
-            vals = [shr[m * npos:(m + 1) * npos] for m in range(len(vals))]
+            nv = len(vals)
+            shr = shrink_terms(flat, lambda cl: fails_seq([[c[m * npos:(m + 1) * npos] for m in range(nv)] for c in cl]), rounds=8)
+            vals = [shr[m * npos:(m + 1) * npos] for m in range(nv)]
             o2 = hrun([("MergeSeq", root, [cs(v) for v in vals])])[0]
             st.violation({"kind": "property", "law": "merge_all_generalizes", "op": "MergeSeq", "root": sx.to_sexp(root), "answers": [sx.to_sexp(v) for v in vals],
                           "real_output": sx.to_sexp(o2)[:3000],
                           "what": "an answer merged by merge_into_guidance is not an instance of the resulting guidance"})
         else:
             st.viol += 1
-    bad = coq_bad(ctx, "mergeseq", "chk_merge_seq", "(rs_eqb (list_eqb csubst_eqb))", "binders * list csubst", "res (list csubst)",
-                  [(Pair(c[1], c[2]), okres(o)) for c, o in zip(cases, outs)])
+    bad = [i for i, c in enumerate(codes) if c == 1]
     st.mism["merge"] = [cases[i] for i in bad]
     ctx.cov["families"].setdefault("model==impl:merge", {"cases": len(cases), "nontrivial": len(cases)})["mismatches"] = len(bad)
 
@@ -558,31 +548,52 @@ def stage_may_invalidate(ctx, st, G):
     pairs.append(("corpus", [N(("HAdt", 1), [I32]), I32], [N(("HAdt", 1), [("Var", "STy", 0, 0)]), ("Var", "STy", 0, 0)]))
     pairs.append(("corpus", [N("HArray", [I32, N(("HCConcrete", 1), [USIZE])]), N("HArray", [I32, N(("HCConcrete", 2), [USIZE])])],
                   [N("HArray", [I32, ("CVar", 0, 2, USIZE)]), N("HArray", [I32, ("CVar", 0, 2, USIZE)])]))
-    res = mayinv_eval(ctx, "mi", [(new, cur) for _, new, cur in pairs])
-    nfalse = 0
-    for (fam, new, cur), rs in zip(pairs, res):
-        ctx.count("may_invalidate:" + fam, sx.to_sexp([new, cur]), nontrivial=rs["mi"] is False)
-        nfalse += rs["mi"] is False
-    ctx.sample({"op": "MayInv", "new": sx.to_sexp(pairs[-3][1]), "cur": sx.to_sexp(pairs[-3][2]), "real": sx.to_sexp(res[-3]["mi"]),
-                "merged": sx.to_sexp(res[-3].get("merged", "n/a"))[:300]})
+    mi = hrun([("MayInv", new, cs(cur)) for _, new, cur in pairs])
+    idx = [i for i, m in enumerate(mi) if m is False]
+    mg = hrun([("Merge", [Pair(KINDS3["TLC".index(gkind(t))], 0) for t in pairs[i][2]], cs(pairs[i][2]), cs(pairs[i][1])) for i in idx])
+    merged = ["None"] * len(pairs)
+    for j, i in enumerate(idx):
+        if not is_panic(mg[j]):
+            merged[i] = ("Some", mg[j][1])
+    nfalse = len(idx)
+    for (fam, new, cur), m in zip(pairs, mi):
+        ctx.count("may_invalidate:" + fam, sx.to_sexp([new, cur]), nontrivial=m is False)
+    ctx.sample({"op": "MayInv", "new": sx.to_sexp(pairs[-3][1]), "cur": sx.to_sexp(pairs[-3][2]), "real": sx.to_sexp(mi[-3]), "merged": sx.to_sexp(merged[-3])[:300]})
     ctx.cov["may_invalidate_false_share"] = round(nfalse / max(1, len(pairs)), 3)
-    # (b) property on the implementation: "cannot change" => answer is an instance of the guidance and
-    # (unless the guidance repeats a variable) really merging it leaves the guidance unchanged up to renaming
+    # one Coq pass. code = (unchanged model differs ? 1 : 0) + 4 * verdict, verdict of the property on the REAL outputs:
+    # "cannot change" => the answer is an instance of the guidance and (unless the guidance repeats a variable) really
+    # merging it leaves the guidance unchanged up to renaming; 1 = fails inside the known class F1, 2 = fails outside
+    TY = "((list tm * csubst) * res bool) * option (list tm)"
+    inp = [Pair(Pair(Pair(new, cs(cur)), okres(m)), mo) for (_, new, cur), m, mo in zip(pairs, mi, merged)]
+    bad0 = coq_bad(ctx, "mi0", "chk_mi_code", "N.eqb", TY, "N", [(x, 0) for x in inp])
+    verdict = [0] * len(pairs)
+    old_bad = []
+    if bad0:
+        bad4 = coq_bad(ctx, "mi4", "chk_mi_code", "N.eqb", TY, "N", [(inp[i], 4) for i in bad0])
+        rest = [bad0[k] for k in bad4]
+        for i in set(bad0) - set(rest):
+            verdict[i] = 1
+        if rest:   # rare: look at the two components separately
+            ob = set(coq_bad(ctx, "mi_old", "(chk_mayinv MOld)", "(rs_eqb Bool.eqb)", "list tm * csubst", "res bool", [(inp[i][0][0], inp[i][0][1]) for i in rest]))
+            old_bad = [rest[k] for k in sorted(ob)]
+            vi = [i for i in rest if merged[i] != "None"]
+            vv = coq_verdicts(ctx, "mi_v", "chk_mi_verdict", "(list tm * list tm) * list tm", [Pair(Pair(pairs[i][1], pairs[i][2]), merged[i][1]) for i in vi])
+            for i, v in zip(vi, vv):
+                verdict[i] = v
     known_hits = 0
-    for (fam, new, cur), rs in zip(pairs, res):
-        if rs["mi"] is not False or rs.get("holds", True):
+    for i, ((fam, new, cur), v) in enumerate(zip(pairs, verdict)):
+        if v == 0:
             continue
-        if rs["f1"]:
+        if v == 1:
             known_hits += 1
             f = ctx.match_known(None, F1_CLASS)
             if f is not None:
-                ctx.known_finding(f, "e.g. new=%s current=%s: may_invalidate=false, merged guidance %s" % (sx.to_sexp(new)[:160], sx.to_sexp(cur)[:160], sx.to_sexp(rs["merged"][1])[:160]))
+                ctx.known_finding(f, "e.g. new=%s current=%s: may_invalidate=false, merged guidance %s" % (sx.to_sexp(new)[:160], sx.to_sexp(cur)[:160], sx.to_sexp(merged[i][1])[:160]))
                 continue
         if st.viol < 3:
-            def fails(cands):
-                k = len(new)
+            def fails(cands, k=len(new)):
                 rr = mayinv_eval(ctx, "mi_shr", [(c[:k], c[k:]) for c in cands])
-                return [x["mi"] is False and not x.get("holds", True) and not x.get("f1", False) for x in rr]
+                return [x["mi"] is False and x.get("verdict", 0) == v for x in rr]
             sh = shrink_terms(new + cur, fails, rounds=8)
             new2, cur2 = sh[:len(new)], sh[len(new):]
             r2 = mayinv_eval(ctx, "mi_rep", [(new2, cur2)], detail=True)[0]
@@ -597,15 +608,13 @@ def stage_may_invalidate(ctx, st, G):
     ctx.cov["known_class_share"] = round(known_hits / max(1, nfalse), 4)
     ctx.cov["known_class_cases"] = known_hits
     # (a) model == implementation: the code as it is (MOld) or the repaired code (MFix), consistently
-    exp = [(Pair(new, cs(cur)), okres(rs["mi"])) for (_, new, cur), rs in zip(pairs, res)]
-    bad_old = coq_bad(ctx, "mi_old", "(chk_mayinv MOld)", "(rs_eqb Bool.eqb)", "list tm * csubst", "res bool", exp)
-    mode, bad = "unchanged", bad_old
-    if bad_old:
-        bad_fix = coq_bad(ctx, "mi_fix", "(chk_mayinv MFix)", "(rs_eqb Bool.eqb)", "list tm * csubst", "res bool", exp)
+    mode, bad = "unchanged", old_bad
+    if old_bad:
+        bad_fix = coq_bad(ctx, "mi_fix", "(chk_mayinv MFix)", "(rs_eqb Bool.eqb)", "list tm * csubst", "res bool", [(x[0][0], x[0][1]) for x in inp])
         if not bad_fix:
             mode, bad = "repaired", []
         else:
-            mode, bad = "neither", (bad_old if len(bad_old) <= len(bad_fix) else bad_fix)
+            mode, bad = "neither", (old_bad if len(old_bad) <= len(bad_fix) else bad_fix)
     ctx.cov["may_invalidate_model"] = mode
     st.mism["may_invalidate"] = [("MayInv", pairs[i][1], cs(pairs[i][2])) for i in bad]
     ctx.cov["families"].setdefault("model==impl:may_invalidate", {"cases": len(pairs), "nontrivial": nfalse})["mismatches"] = len(bad)
@@ -694,7 +703,8 @@ def stage_with_priorities(ctx, st, pool):
            alias_eq(proj([("Var", "STy", 0, 3)]), I32),          # index beyond the substitution: slice index panic
            alias_eq(proj([("Var", "STy", 1, 0)]), I32),          # variable of an outer binder: assertion
            N("HWfTy", [("Var", "STy", 0, 0)])]
-    sols = [s for s in pool if s[0] != "Unique" or len(s[2]) == 2] + [("Unique", [], [N("HLStatic"), I32], [])]
+    sols = [s for s in pool if s[0] != "Unique" or len(s[2]) == 2]
+    sols = sols[:4] + sols[5:7] + [x for x in sols[8:] if x[0] == "Ambig"][::2] + [("Unique", [], [N("HLStatic"), I32], [])]
     cases = []
     for dg in dgs:
         for a in sols:
